@@ -115,7 +115,8 @@ def real_lookup(pool, kh, cfg):
         return None
     res = asyncssh.match_known_hosts(kh, cfg['alias'] or cfg['host'], cfg['addr'],
                                      None if cfg['port'] == 22 else cfg['port'])
-    return tuple(sorted(pool.index_of_blob(k.public_data) for k in res[i]) for i in range(3))
+    # the client turns the three lists into sets; duplicates (several matching lines) carry no information
+    return tuple(sorted({pool.index_of_blob(k.public_data) for k in res[i]}) for i in range(3))
 
 
 def ref_trust(cfg):
@@ -527,17 +528,27 @@ def gen_script(rng):
     """A message order: a well-formed handshake with insertions, deletions and swaps."""
     base = [('kexinit', True), ('reply',), ('newkeys',), ('accept', True)]
     acts = []
+    calm = rng.random() < 0.4                                   # mostly well-formed, harmless insertions only
     for a in base:
         r = rng.random()
-        if r < 0.12:
+        if calm:
+            if r < 0.25:
+                acts.append(('local', rng.choice(LOCALS)))
+            elif r < 0.5 and a[0] == 'accept':                  # encrypted by then: harmless under strict kex too
+                acts.append(('other', rng.choice([2, 3, 4, 53])))
+            acts.append(a)
+            continue
+        if r < 0.1:
             continue                                            # drop it
-        if r < 0.3:
+        if r < 0.25:
             acts.append(('other', rng.choice(OTHERS)))
-        elif r < 0.45:
+        elif r < 0.4:
             acts.append(('local', rng.choice(LOCALS)))
-        elif r < 0.5:
+        elif r < 0.45:
             acts.append(rng.choice([('newkeys',), ('accept', True), ('accept', False), ('kexinit', True), ('reply',)]))
         acts.append(a)
+    if calm:
+        return acts, True
     if rng.random() < 0.25 and len(acts) >= 2:
         i = rng.randrange(len(acts) - 1)
         acts[i], acts[i + 1] = acts[i + 1], acts[i]
@@ -545,7 +556,7 @@ def gen_script(rng):
         acts.append(rng.choice([('other', rng.choice(OTHERS)), ('local', rng.choice(LOCALS)), ('accept', True)]))
     if rng.random() < 0.05:
         acts = [('kexinit', False) if a[0] == 'kexinit' else a for a in acts]
-    return acts
+    return acts, False
 
 
 def coq_event(a, strict, ext, v, lie, now):
@@ -572,12 +583,12 @@ def stage_scripts(ctx, pool, configs, n):
         vs = variants_for(rng, cfg, ctx.tier)
         tr_ref = ref_trust(cfg)
         acc = [v for v in vs if expected_accept(tr_ref, cfg, v, T0) and v['form'] != 'garbage']
-        v = rng.choice(acc) if acc and rng.random() < 0.75 else rng.choice(vs)
+        acts, calm = gen_script(rng)
+        v = rng.choice(acc) if acc and (calm or rng.random() < 0.75) else rng.choice(vs)
         now = T0
-        lie = gen_lie(rng, pool, v) if rng.random() < 0.3 else {'signer': v['key'] if v['form'] != 'garbage' else 0,
-                                                                  'hash_key': None, 'garbage': False}
+        lie = gen_lie(rng, pool, v) if not calm and rng.random() < 0.3 else {
+            'signer': v['key'] if v['form'] != 'garbage' else 0, 'hash_key': None, 'garbage': False}
         strict, ext = rng.random() < 0.6, rng.random() < 0.3
-        acts = gen_script(rng)
         run_acts = [(a[0], v, now) if a[0] == 'reply' else a for a in acts]
         kh = known_hosts_arg(pool, cfg, ctx.work, 's%d' % i)
         tr_real = real_lookup(pool, kh, cfg)
